@@ -33,16 +33,14 @@ Record allow := mkAllow {
   al_pkg : string; al_fn : string; al_var : string; al_kind : akind; al_ord : N; al_reason : reason
 }.
 
-Definition f9 := KnownFinding "C16/race-IsNamespaceScoped-read".
 Definition f9b := KnownFinding "C16/race-unlocked-read-vs-reinit-after-explicit-version".
 Definition api_only := NotOnRunPath "public API of kyaml/openapi that krusty.Run never calls".
 Definition goplugins := OutOfScope "Go-plugin registry: only touched when a Go plugin (.so) is loaded; plugins are disabled by krusty.MakeDefaultOptions and outside the property's trees".
 Definition shorthand := OutOfScope "kyaml/fieldmeta.shortHandRef is written only by SetShortHandRef (cmd/config CLI set-up), never during a build".
 
 Definition allow_list : list allow := [
-  (* F9: the unlocked read in IsNamespaceScoped *)
-  mkAllow "kyaml/openapi" "IsNamespaceScoped" "kyaml/openapi.globalSchema.namespaceabilityByResourceType" ARead 0 f9;
-  mkAllow "kyaml/openapi" "IsNamespaceScoped" "kyaml/openapi.globalSchema.namespaceabilityByResourceType[]" AMapRead 0 f9;
+  (* (the unlocked map read in IsNamespaceScoped, finding F9, was repaired in /repo db2770f: its rows now carry
+     R:schemaLock and need no entry; if the lock disappears again the rows fail the obligation) *)
   (* sites that clear schemaInit: only executed for a custom schema / an explicit version / by ResetOpenAPI *)
   mkAllow "kyaml/openapi" "SetSchema" "kyaml/openapi.globalSchema.schemaInit" AWrite 0
           (ResetSite "the build installs a custom schema (openapi: path) — outside C16's domain");
